@@ -35,7 +35,14 @@ EXPLANATION = __doc__
 N, V = vm.NUMBERS, vm.VALUES
 
 
+def _borrowed(ctx, rep):
+    from . import c02 as _c02, c06 as _c06, _share as _sh
+    _sh.share(ctx, rep, _c02, ('range.',), 'CINT, an assignment to a % variable and MKI$ accept exactly -32768..32767: the bounds are those of Integer.from_int')
+    _sh.share(ctx, rep, _c06, ('float-eq.',), 'INT() floors a negative number by comparing it with its truncation through Float.eq: a zero with its sign bit set equals zero, or INT of it is -1')
+
+
 def check(ctx, rep):
+    _borrowed(ctx, rep)
     sizes = {}
     for cname in ('Integer', 'Single', 'Double'):
         ca = class_assigns(ctx.cls('%s:%s' % (N, cname)))
@@ -193,6 +200,10 @@ def variants(ctx):
         return lambda tree: f(mu.find_def(tree, fname))
 
     return [
+        Va('cint-refuses-minus-32768', 'break', 'pcbasic/basic/values/numbers.py',
+           in_fn('Integer.from_int', lambda fn: mu.replace_stmt(fn, mu.text_is('minint, maxint = (-32768, 32767)'), 'minint, maxint = (-32767, 32767)')), expect='shared.range.from_int'),
+        Va('negative-zero-not-equal-to-zero', 'break', 'pcbasic/basic/values/numbers.py',
+           in_fn('Float.eq', lambda fn: mu.remove_stmt(fn, lambda st: isinstance(st, ast.If) and norm(st.test) == 'self.is_zero()')), expect='shared.float-eq'),
         Va('normalise-keeps-mantissa-at-limit', 'break', N,
            in_fn('Float._normalise', lambda fn: mu.replace_expr(fn, mu.text_is('man >= self._den_upper'), 'man > self._den_upper')), expect='normalise.mantissa-below-limit'),
         Va('bring-to-range-shifts-all-ones', 'break', N,
